@@ -343,7 +343,12 @@ func (g *Gen) twoSwapPrologue() []M {
 	ops[len(ops)-1]["phAsk"] = map[string]int64{"memory": 4}
 	g.mkAsk(&ops, "app0", map[string]int64{"memory": 2}, 0, false, true, "tg", "")
 	g.mkAsk(&ops, "app0", map[string]int64{"memory": 2}, 0, false, true, "tg", "")
-	g.sched(&ops, 3)
+	third := rng.Intn(2) == 0 // a placeholder that stays unused
+	if third {
+		ops[len(ops)-3]["phAsk"] = map[string]int64{"memory": 6}
+		g.mkAsk(&ops, "app0", map[string]int64{"memory": 2}, 0, false, true, "tg", "")
+	}
+	g.sched(&ops, 4)
 	r1 := g.mkAsk(&ops, "app0", map[string]int64{"memory": int64(1 + rng.Intn(2))}, 0, false, false, "tg", "")
 	g.sched(&ops, 2)
 	ops = append(ops, M{"op": "confirm", "i": 0, "keep": false})
@@ -356,6 +361,12 @@ func (g *Gen) twoSwapPrologue() []M {
 		ops = append(ops, M{"op": "firePhTimer", "app": "app0"})
 	default:
 		ops = append(ops, M{"op": "release", "app": "app0", "key": r1, "term": "STOPPED_BY_RM"})
+		if rng.Intn(2) == 0 { // the completing timeout passes before the shim confirms the second replacement
+			ops = append(ops, M{"op": "fireStateTimer", "app": "app0"})
+			if third {
+				ops = append(ops, M{"op": "confirm", "i": 1, "keep": false})
+			}
+		}
 	}
 	ops = append(ops, M{"op": "confirm", "i": 0, "keep": false})
 	g.sched(&ops, 1)
